@@ -125,6 +125,13 @@ func RunBatch(cfg BatchConfig, progs []Program) ([]Result, error) {
 			args1 = []string{"-input", "types.go", "-type", p.Type, "-package", p.Name, "-output", "parquet.go"}
 			args2 = []string{"-input", "types.go", "-type", p.Type, "-package", p.Name, "-output", "parquet2.go"}
 		}
+		// the tool is normally re-run in place (go generate): its output files
+		// already exist, longer than what it is about to write
+		stale := []byte(strings.Repeat("// output of an earlier, longer run\n", 6000) + "stale tail: this is not Go\n")
+		os.WriteFile(filepath.Join(pd, "parquet.go"), stale, 0o644)
+		if p.Parquet != "" {
+			os.WriteFile(filepath.Join(pd, "types.go"), stale, 0o644)
+		}
 		out, err := runCmd(pd, 60*time.Second, nil, cfg.Parquetgen, args1...)
 		if err != nil {
 			res[i].GenFail = trim(out+" "+err.Error(), 600)
